@@ -21,6 +21,7 @@ from .core import SDict, IteDict, NameDict
 REWRITES: list = []
 _INSTALLED = False
 _CONVERTED: dict = {}
+_KEEP_ALIVE: list = []
 
 
 class _T(ast.NodeTransformer):
@@ -41,6 +42,10 @@ class _T(ast.NodeTransformer):
         if isinstance(node.op, ast.Mod) and isinstance(node.left, ast.Constant) and isinstance(node.left.value, bytes):
             REWRITES.append('%s:%d bmod' % (self.path.split('/src/exabgp/')[-1], node.lineno))
             return ast.copy_location(ast.Call(ast.Name('__sx_bmod__', ast.Load()), [node.left, node.right], []), node)
+        if isinstance(node.op, ast.Mod) and isinstance(node.left, ast.Constant) and node.left.value == '%d.%d.%d.%d':
+            # dotted-quad text of four (possibly symbolic) bytes: kept invertible, see shims.sx_dotted (C07)
+            REWRITES.append('%s:%d dotted' % (self.path.split('/src/exabgp/')[-1], node.lineno))
+            return ast.copy_location(ast.Call(ast.Name('__sx_dotted__', ast.Load()), [node.left, node.right], []), node)
         return node
 
 
@@ -58,6 +63,7 @@ class _Loader(importlib.machinery.SourceFileLoader):
     def exec_module(self, module):
         module.__dict__['__sx_join__'] = shims.sx_join
         module.__dict__['__sx_bmod__'] = shims.sx_bmod
+        module.__dict__['__sx_dotted__'] = shims.sx_dotted
         super().exec_module(module)
         shims.shadow(module)
 
@@ -140,6 +146,7 @@ def _convert(owner_dict, setter):
         if kind is None:
             continue
         new = kind(v)
+        _KEEP_ALIVE.append(v)  # the id() key below must never be reused by a later dict (a replaced original would be freed)
         _CONVERTED[id(v)] = new
         _CONVERTED[id(new)] = new
         setter(name, new)
